@@ -431,3 +431,216 @@ def same_answer(impl, model):
 
 def skipped(model):
     return model in ("err dom", "err unmodelled")
+
+
+# ---------------------------------------------------------------------------------- C++ rendering evaluator
+# getCxxFormula() exports a C++ expression. `cxx_eval` evaluates such a string under C++ semantics
+# (precedence: unary - !  >  * /  >  + -  >  < <= > >=  >  == !=  >  &&  >  ||  >  ?: right-assoc),
+# independently of the Lean model: the exported formula must have the value getValue() returns.
+import math
+
+CXX_TOK = re.compile(r"\s*(\d+\.?\d*(?:[eE][+-]?\d+)?|\.\d+(?:[eE][+-]?\d+)?|[A-Za-z_][A-Za-z_0-9]*(?:::[A-Za-z_][A-Za-z_0-9]*)*(?:\[\d+\])?|&&|\|\||[<>=!]=|[-+*/()<>?:,!])")
+
+
+class CxxError(Exception):
+    pass
+
+
+def _power_pos(n, x):
+    if n == 0:
+        return 1.0
+    if n == 1:
+        return x
+    if n == 2:
+        return x * x
+    if n == 3:
+        return x * x * x
+    t = _power_pos(n // 4, x)
+    if n % 4 == 0:
+        return t * t * t * t
+    return t * t * t * t * _power_pos(n % 4, x)
+
+
+def _heavy(x):
+    return 0.0 if x < 0 else 1.0
+
+
+CXX_F1 = {"exp": math.exp, "exp2": lambda x: 2.0 ** x, "expm1": math.expm1, "cbrt": lambda x: math.copysign(abs(x) ** (1.0 / 3.0), x),
+          "abs": abs, "sqrt": math.sqrt, "ln": math.log, "log": math.log, "log10": math.log10, "log2": math.log2,
+          "log1p": math.log1p, "cosh": math.cosh, "sinh": math.sinh, "tanh": math.tanh, "acosh": math.acosh,
+          "asinh": math.asinh, "atanh": math.atanh, "sin": math.sin, "cos": math.cos, "tan": math.tan,
+          "acos": math.acos, "asin": math.asin, "atan": math.atan, "erf": math.erf, "erfc": math.erfc,
+          "tgamma": math.gamma, "lgamma": math.lgamma, "H": _heavy}
+CXX_F2 = {"max": lambda a, b: b if a < b else a, "min": lambda a, b: b if b < a else a, "hypot": math.hypot,
+          "atan2": math.atan2, "std::pow": lambda a, b: math.pow(a, b)}
+
+
+def cxx_eval(s, env):
+    """value of the C++ expression `s` (a getCxxFormula string) with the variables of `env`;
+    raises CxxError when the string is not an expression of the rendering grammar or a function
+    leaves its domain"""
+    toks = []
+    pos = 0
+    while pos < len(s):
+        if s[pos].isspace():
+            pos += 1
+            continue
+        m = CXX_TOK.match(s, pos)
+        if not m:
+            raise CxxError("token at %d: %r" % (pos, s[pos:pos + 10]))
+        toks.append(m.group(1))
+        pos = m.end()
+    p = [0]
+
+    def peek():
+        return toks[p[0]] if p[0] < len(toks) else None
+
+    def take(t=None):
+        x = peek()
+        if x is None or (t is not None and x != t):
+            raise CxxError("expected %r, found %r" % (t, x))
+        p[0] += 1
+        return x
+
+    # each parse function returns a thunk (so that ?: && || only evaluate what C++ evaluates)
+    def primary():
+        t = take()
+        if t == "(":
+            e = ternary()
+            take(")")
+            return e
+        if re.match(r"[\d.]", t):
+            v = float(t)
+            return lambda: v
+        if re.match(r"[A-Za-z_]", t):
+            if t == "FP_ZERO":
+                return lambda: "FP_ZERO"
+            if t == "tfel::math::power":
+                take("<")
+                neg = False
+                if peek() == "-":
+                    take()
+                    neg = True
+                n = int(take())
+                n = -n if neg else n
+                take(">")
+                take("(")
+                a = ternary()
+                take(")")
+
+                def pw():
+                    x = a()
+                    if n < 0:
+                        if x == 0:
+                            raise CxxError("power of zero")
+                        return _power_pos(-n, 1.0 / x)
+                    return _power_pos(n, x)
+                return pw
+            if peek() == "(":
+                take("(")
+                args = [ternary()]
+                while peek() == ",":
+                    take(",")
+                    args.append(ternary())
+                take(")")
+                if t == "tfel::math::ieee754::fpclassify" and len(args) == 1:
+                    return lambda: "FP_ZERO" if args[0]() == 0 else "FP_OTHER"
+                if len(args) == 1 and t in CXX_F1:
+                    return lambda: CXX_F1[t](args[0]())
+                if len(args) == 2 and t in CXX_F2:
+                    return lambda: CXX_F2[t](args[0](), args[1]())
+                raise CxxError("unknown function %s/%d" % (t, len(args)))
+            if t not in env:
+                raise CxxError("unbound variable " + t)
+            v = env[t]
+            return lambda: v
+        raise CxxError("unexpected token %r" % t)
+
+    def unary():
+        if peek() == "-":
+            take()
+            e = unary()
+            return lambda: -e()
+        if peek() == "!":
+            take()
+            e = unary()
+            return lambda: not e()
+        return primary()
+
+    def binary(sub, ops):
+        def parse():
+            e = sub()
+            while peek() in ops:
+                o = take()
+                r = sub()
+                e = (lambda l, r, f: (lambda: f(l(), r())))(e, r, ops[o])
+            return e
+        return parse
+
+    def div(a, b):
+        if b == 0:
+            raise CxxError("division by zero")
+        return a / b
+
+    mul = binary(unary, {"*": lambda a, b: a * b, "/": div})
+    add = binary(mul, {"+": lambda a, b: a + b, "-": lambda a, b: a - b})
+    rel = binary(add, {"<": lambda a, b: a < b, "<=": lambda a, b: a <= b, ">": lambda a, b: a > b, ">=": lambda a, b: a >= b})
+    eq = binary(rel, {"==": lambda a, b: a == b, "!=": lambda a, b: a != b})
+
+    def land():
+        e = eq()
+        while peek() == "&&":
+            take()
+            r = eq()
+            e = (lambda l, r: (lambda: bool(l()) and bool(r())))(e, r)
+        return e
+
+    def lor():
+        e = land()
+        while peek() == "||":
+            take()
+            r = land()
+            e = (lambda l, r: (lambda: bool(l()) or bool(r())))(e, r)
+        return e
+
+    def ternary():
+        c = lor()
+        if peek() == "?":
+            take("?")
+            a = ternary()
+            take(":")
+            b = ternary()
+            return lambda: a() if c() else b()
+        return c
+
+    e = ternary()
+    if peek() is not None:
+        raise CxxError("trailing token %r" % peek())
+    try:
+        v = e()
+    except (ValueError, OverflowError, ZeroDivisionError) as ex:
+        raise CxxError("domain: %s" % ex)
+    if isinstance(v, bool) or isinstance(v, str):
+        raise CxxError("not a number")
+    return float(v)
+
+
+def close(a, b, rel=1e-9):
+    if a != a and b != b:
+        return True
+    if a != a or b != b:
+        return False
+    if math.isinf(a) or math.isinf(b):
+        return a == b
+    return abs(a - b) <= rel * max(abs(a), abs(b), 1e-300)
+
+
+def export_verdict(rendering, env, value):
+    """'same' / 'different' / 'undecided' : does the exported C++ formula have the evaluator's value?"""
+    try:
+        v = cxx_eval(rendering, env)
+    except CxxError:
+        return "undecided", None
+    if value is None:
+        return "undecided", v
+    return ("same" if close(v, value, 1e-9) else "different"), v
